@@ -301,6 +301,21 @@ fn main() {
             }
         }
     }
+    // truthful but very loose upper bounds: above isize::MAX (a signed slack computation goes negative there)
+    if !only_panics {
+        for &n in &ns {
+            for form in 0..4i128 {
+                for count in [n.saturating_sub(1), n, n + 1] {
+                    for hi in [usize::MAX as i128, isize::MAX as i128 + 1, isize::MAX as i128 + n as i128, isize::MAX as i128] {
+                        let mut c = vec![form, n as i128, 0, hi];
+                        c.extend(0..count as i128);
+                        dist("huge-upper-hint");
+                        do_case(c);
+                    }
+                }
+            }
+        }
+    }
     // an array larger than 16 KiB (4096 x 8 bytes): exact, one short, one and two too many, under an exact, a loose
     // and an absent hint
     if !only_panics {
